@@ -1185,6 +1185,23 @@ def r17_4(rep):
                 v = strip(f["e"]).get("v")
     rep.check(v is True, "cargo:new:header-files-on", "`CargoCallbacks::new()` reports input headers (rerun_on_header_files = %r)" % (v,),
               nb.loc(nb.root))
+    # every other public way to obtain a CargoCallbacks value agrees with new(): `Default` (hand-written or derived)
+    db = prog.impl_fn("std::default::Default", "CargoCallbacks", "default")
+    if db is None:
+        rep.ok("cargo:default:header-files-on", "CargoCallbacks has no Default impl; new() is the only constructor")
+    else:
+        vals = []
+        for n in db.walk():
+            if n["k"] == "Call" and (n.get("callee") or n.get("resolved") or "") == "CargoCallbacks::new":
+                vals.append(True)
+            elif n["k"] == "Struct" and n.get("adt") == "CargoCallbacks":
+                for f in n["fs"]:
+                    if f["f"] == "rerun_on_header_files":
+                        e = strip(f["e"])
+                        vals.append(e.get("v") if e.get("k") == "Lit" else
+                                    (False if "Default>::default" in db.canon(e) else None))
+        rep.check(bool(vals) and all(x is True for x in vals), "cargo:default:header-files-on",
+                  "`CargoCallbacks::default()` reports input headers like new() (rerun_on_header_files = %r)" % (vals,), db.loc(db.root))
 
 
 @RULES.rule("R17.5", "depfile text is assembled from whole strings/chars: no byte is turned into a char on its own", floor=1)
@@ -1219,3 +1236,73 @@ def r17_5(rep):
             if t.startswith("deps::"):
                 stack.append(t)
     rep.ok("functions-scanned:%d" % seen)
+
+
+# ---------------------------------------------------------------------------------------------------------
+# R17.6  the main translation unit always carries the preprocessing record (inclusion directives are cursors)
+# ---------------------------------------------------------------------------------------------------------
+PPREC = "clang_sys::CXTranslationUnit_DetailedPreprocessingRecord"
+
+
+def _option_leaves(b, e, depth=8):
+    """the expressions a parse-options value can evaluate to: follows immutable lets, if/else, match, blocks."""
+    e = strip(e)
+    k = e.get("k")
+    if depth <= 0:
+        return [e]
+    if k == "Local":
+        init = b.local_init(e["id"])
+        if init is not None:
+            return _option_leaves(b, init, depth - 1)
+        # `let mut opts = A; if c { opts |= B; }`: the initialiser is the least the value contains (`|=` only adds bits)
+        d = b.local_def.get(e["id"])
+        if d and d[0][0] == "let" and not d[1] and "init" in d[0][1]:
+            plain = [n for n in b.nodes if n["k"] == "Assign" and strip(n["l"]).get("k") == "Local" and strip(n["l"])["id"] == e["id"]]
+            ored = [n for n in b.nodes if n["k"] == "AssignOp" and strip(n["l"]).get("k") == "Local" and strip(n["l"])["id"] == e["id"]]
+            if not plain and all(n["op"] in ("|", "|=", "BitOr") for n in ored):
+                return _option_leaves(b, d[0][1]["init"], depth - 1)
+            out = _option_leaves(b, d[0][1]["init"], depth - 1)
+            for n in plain:
+                out += _option_leaves(b, n["r"], depth - 1)
+            return out if not [n for n in ored if n["op"] not in ("|", "|=", "BitOr")] else [e]
+        return [e]
+    if k == "Block" and e.get("tail") is not None:
+        return _option_leaves(b, e["tail"], depth - 1)
+    if k == "If" and "else" in e:
+        return _option_leaves(b, e["then"], depth - 1) + _option_leaves(b, e["else"], depth - 1)
+    if k == "Match":
+        out = []
+        for a in e["arms"]:
+            out += _option_leaves(b, a["body"], depth - 1)
+        return out
+    return [e]
+
+
+def _has_bit(b, e, bit):
+    e = strip(e)
+    if e.get("k") == "Path" and e.get("def") == bit:
+        return True
+    if e.get("k") == "Binary" and e["op"] in ("|", "BitOr"):
+        return _has_bit(b, e["l"], bit) or _has_bit(b, e["r"], bit)
+    if e.get("k") == "Local":
+        return all(_has_bit(b, x, bit) for x in _option_leaves(b, e)) if b.local_init(e["id"]) is not None else False
+    return False
+
+
+@RULES.rule("R17.6", "the bindings' translation unit is always parsed with the detailed preprocessing record", floor=1)
+def r17_6(rep):
+    """Necessary: `Item::parse` learns about included files only from `CXCursor_InclusionDirective` cursors, and libclang
+    materialises those only under `CXTranslationUnit_DetailedPreprocessingRecord`.  Dropping the bit on some path
+    (`if options.codegen_config.vars() || !options.parse_callbacks.is_empty() { RECORD } else { None }`) leaves
+    `bindgen --generate functions,types --depfile d a.h` with a depfile that lists only a.h."""
+    prog = rep.prog
+    new = rep.need(prog.fn("ir::context::BindgenContext::new"), "BindgenContext::new")
+    calls = [c for c in new.calls(lambda n: n["k"] == "Call" and (n.get("callee") or n.get("resolved") or "") == "clang::TranslationUnit::parse")]
+    rep.need(calls, "call of clang::TranslationUnit::parse in BindgenContext::new")
+    for c in calls:
+        leaves = _option_leaves(new, c["args"][4])
+        missing = [x for x in leaves if not _has_bit(new, x, PPREC)]
+        rep.check(not missing, "tu-parse:preprocessing-record", "every value of the parse options contains the record bit (%d value%s)" %
+                  (len(leaves), "" if len(leaves) == 1 else "s") if not missing else
+                  "parse options may be `%s`, without %s: no inclusion directive is reported" % (new.canon(missing[0], 3), PPREC.split("::")[-1]),
+                  new.loc(missing[0]) if missing else new.loc(c))
